@@ -81,6 +81,9 @@ Next ==
   /\ l' = l + 1
   /\ LET e == Trace[l] IN
        IF e.ev = "reset" THEN Reset(e)
+       ELSE IF e.ev = "diverged"     \* the driver could not continue a planned scenario: real behaviour left the plan
+         THEN /\ UNCHANGED <<mgr, handles, res>>
+              /\ bad' = <<"real objects diverged from the planned scenario", e.why>>
        ELSE IF ~Guard(e)
          THEN /\ UNCHANGED <<mgr, handles, res>>
               /\ bad' = <<"call outcome impossible in the specification (guard false)", e.ev>>
